@@ -197,6 +197,25 @@ Proof.
     + intro Hin. apply NoDup_remove_2 in N. apply N. apply in_or_app. now left.
 Qed.
 
+Fixpoint build_with (f : tjson -> node) (ms : list (bytes * tjson)) (acc : list (bytes * node)) : list (bytes * node) :=
+  match ms with
+  | [] => acc
+  | (k, v) :: r => build_with f r (aset (unquote k) (f v) acc)
+  end.
+
+Lemma build_with_nodup f ms : forall acc,
+  NoDup (map fst acc ++ map (fun kv => unquote (fst kv)) ms) ->
+  build_with f ms acc = acc ++ map (fun kv => (unquote (fst kv), f (snd kv))) ms.
+Proof.
+  induction ms as [|[k v] ms IH]; intros acc N; simpl.
+  - now rewrite app_nil_r.
+  - simpl in N. rewrite aset_notin.
+    + rewrite IH.
+      * rewrite <- app_assoc. reflexivity.
+      * rewrite map_app. simpl. rewrite <- app_assoc. exact N.
+    + intro Hin. apply NoDup_remove_2 in N. apply N. apply in_or_app. now left.
+Qed.
+
 Lemma doc_of_nodup ms :
   NoDup (map (fun kv => unquote (fst kv)) ms) ->
   doc_of ms = (map (fun kv => unquote (fst kv)) ms, map (fun kv => (unquote (fst kv), child (snd kv))) ms).
